@@ -29,6 +29,7 @@ func init() {
 			{ID: "C06/R4", Run: c06r4, Min: 1},
 			{ID: "C06/R5", Run: c07r2r3, Min: 1},
 			{ID: "C06/R6", Run: c06r6, Min: 1},
+			{ID: "C01/R9", Run: c01r9, Min: 1},
 		},
 	})
 }
